@@ -264,8 +264,9 @@ def run_program(p):
         for c in all_classes(mod):
             res["meta"].append(meta_view(ctx, c))
         root_cls = None
+        root_local = p["root"].split(":")[-1]
         for c in classes:
-            if c.name == p["root"] or c.qname == p["root"] or c.qname.endswith("}" + p["root"]):
+            if c.name == root_local or c.qname == root_local or c.qname.endswith("}" + root_local):
                 root_cls = getattr(mod, f.class_name(c.name))
                 break
         if root_cls is None:
